@@ -48,6 +48,7 @@ class FakeBackend:
         self.asyncs_since_sync = 0
         self.crashed = None
         self.page_size = None
+        self.timers_in_invocation = False
         self.hooks = None
 
     # ------------------------------------------------------------------ helpers
@@ -234,6 +235,7 @@ class FakeBackend:
         if checkpoint_token != self.token:
             self.rejections.append({"reason": "stale checkpoint token", "got": checkpoint_token, "want": self.token})
             raise RuntimeError("InvalidParameterValueException: Invalid Checkpoint Token")
+        self.fire_due_timers()
         staged = {i: self._copy(r) for i, r in self.ops.items()}
         for u in updates:
             ok, why = self.check_update(u, staged)
@@ -296,6 +298,20 @@ class FakeBackend:
             elif r.type == "CHAINED_INVOKE" and r.status == "STARTED":
                 ev.append(("invokeDone", i))
         return ev
+
+    def fire_due_timers(self):
+        """B3 inside an invocation: timers whose instant has passed (virtual clock) fire before the call is served."""
+        if not self.timers_in_invocation:
+            return
+        now = self.clock()
+        for i in self.order:
+            r = self.ops[i]
+            if r.type == "WAIT" and r.status == "STARTED" and r.wait_until is not None and r.wait_until <= now:
+                r.status = "SUCCEEDED"
+                self.changed_since_call.add(i)
+            elif r.type == "STEP" and r.status == "PENDING" and r.next_attempt is not None and r.next_attempt <= now:
+                r.status = "READY"
+                self.changed_since_call.add(i)
 
     def fire(self, kind, op_id, outcome=None):
         r = self.ops[op_id]
